@@ -658,6 +658,16 @@ pub enum ShaderStorage<'a, 'b> {
 // The idea here is to store a shader in shader_storage and then return
 // a reference to it. The goal is to avoid a heap allocation but the end
 // result is pretty ugly.
+/// Two-circle and sweep gradients are evaluated at 16.16 fixed point positions of the space that
+/// `transform` maps device pixels into, and neither changes under a uniform scale of that space (of the
+/// circles too, for the former). This is the scale that makes its units about a device pixel: left in units
+/// that are tiny (a drawing under a large scale) the positions are quantised away, in huge units they overflow.
+fn pixel_scale(transform: &Transform) -> f32 {
+    let det = (transform.m11 * transform.m22 - transform.m12 * transform.m21).abs();
+    let scale = 1. / det.sqrt();
+    if scale.is_finite() && scale > 0. { scale } else { 1. }
+}
+
 pub fn choose_shader<'a, 'b, 'c>(ti: &Transform, src: &'b Source<'c>, alpha: f32, shader_storage: &'a mut ShaderStorage<'b, 'c>) -> &'a dyn Shader {
     // clamp alpha to [0, 1]: the shaders' fixed point math overflows for anything larger
     // (a NaN alpha ends up as 0)
@@ -720,11 +730,15 @@ pub fn choose_shader<'a, 'b, 'c>(ti: &Transform, src: &'b Source<'c>, alpha: f32
             ShaderStorage::RadialGradient(s)
         }
         Source::TwoCircleRadialGradient(ref gradient, spread, c1, r1, c2, r2, transform) => {
-            let s = TwoCircleRadialGradientShader::new(gradient, &ti.then(&transform), *c1, *r1, *c2, *r2, *spread, alpha);
+            let transform = ti.then(&transform);
+            let scale = pixel_scale(&transform);
+            let s = TwoCircleRadialGradientShader::new(gradient, &transform.then_scale(scale, scale), *c1 * scale, *r1 * scale, *c2 * scale, *r2 * scale, *spread, alpha);
             ShaderStorage::TwoCircleRadialGradient(s)
         }
         Source::SweepGradient(ref gradient, spread, start_angle, end_angle, transform) => {
-            let s = SweepGradientShader::new(gradient, &ti.then(&transform), *start_angle, *end_angle, *spread, alpha);
+            let transform = ti.then(&transform);
+            let scale = pixel_scale(&transform);
+            let s = SweepGradientShader::new(gradient, &transform.then_scale(scale, scale), *start_angle, *end_angle, *spread, alpha);
             ShaderStorage::SweepGradient(s)
         }
         Source::LinearGradient(ref gradient, spread, transform) => {
